@@ -304,7 +304,7 @@ func insideFrame(enc [][]byte, cuts []int) bool {
 
 func runC17(c *ev.Ctx) {
 	r := c.Rand("c17")
-	streams := c17Streams(r, c.Sz(20, 1600))
+	streams := c17Streams(r, c.Sz(100, 1600))
 	for si, frames := range streams {
 		for _, socket := range []bool{false, true} {
 			if !c.Mine(si*2 + b2i(socket)) {
@@ -376,7 +376,7 @@ func runC17(c *ev.Ctx) {
 					}
 					p += len(e)
 				}
-				for k := 0; k < c.Sz(12, 200); k++ {
+				for k := 0; k < c.Sz(40, 200); k++ {
 					nc := 1 + r.Intn(8)
 					var cs []int
 					for j := 0; j < nc; j++ {
@@ -691,7 +691,7 @@ func c17Client(c *ev.Ctx) {
 				cutsets = append(cutsets, []int{h})
 			}
 			cutsets = append(cutsets, []int{4, 7, 11}, []int{7, 11}, []int{10, 12}, []int{replyLen - 1})
-			for k := 0; k < c.Sz(15, 150); k++ {
+			for k := 0; k < c.Sz(40, 150); k++ {
 				nc := 1 + r.Intn(5)
 				var cs []int
 				for j := 0; j < nc; j++ {
